@@ -10,7 +10,7 @@ Open Scope Z_scope.
 Section ProofsBytes.
 Context {T : Type}.
 Variable parse_hdr : list Z -> hdr.
-Variable parse_blob : list Z -> blobp T.
+Variable parse_blob : btype -> list Z -> blobp T.
 
 Notation abs := (abstract parse_hdr parse_blob).
 Notation bscan := (b_scan parse_hdr parse_blob).
